@@ -19,12 +19,14 @@ inductive Op
   | mkdirSession   -- session_dir.mkdir(exist_ok=True)
   | chooseDb       -- if database == ":memory:" and not _use_in_memory_db(): database = session_dir/"session.duckdb"
   | bindNone       -- conn = None
-  | connect        -- conn = duckdb.connect(database, ...)
+  | connect        -- duckdb.connect(database, ...): the connection object exists and is open
+  | bindConn       -- the variable `conn` of configured_connection receives it (the call that created it returned)
   | configure      -- conn.execute("SET ...")
   | registerUdf    -- register_regex_functions(conn)
   | setDecimal     -- set_decimal_config(): writes the module globals, may reject the environment
   | setTemp        -- conn.execute("SET temp_directory = session_dir")
-  | close          -- conn.close()
+  | close          -- conn.close() in configured_connection (through the variable `conn`)
+  | closeInner     -- conn.close() inside create_configured_connection / configure_duckdb_connection (their local)
   | rmtree         -- shutil.rmtree(session_dir, ignore_errors=True)
   | connectExtra   -- any further duckdb.connect(...) bound to another name
   | closeExtra     -- that other connection's .close()
@@ -51,14 +53,20 @@ inductive Prog
   | ifConn (a : Prog)             -- if conn is not None: a
   deriving Repr, Inhabited
 
-inductive ConnSt | unbound | none | open | closed | lost
+/-- the variable `conn` of configured_connection -/
+inductive ConnVar | unbound | none | bound
+  deriving DecidableEq, Repr, Inhabited
+
+/-- the connection object created by this run -/
+inductive ConnObj | absent | open | closed
   deriving DecidableEq, Repr, Inhabited
 
 /-- Session resources of one run. -/
 structure Res where
   dir : Bool := false          -- the `duckdb_tmp_<uuid>` directory exists
-  conn : ConnSt := .unbound    -- the variable `conn`
-  extra : Nat := 0             -- open connections bound to other names
+  conn : ConnVar := .unbound   -- the variable `conn`
+  obj : ConnObj := .absent     -- the connection object
+  extra : Nat := 0             -- further open connections (bound to other names, or replaced)
   file : Bool := false         -- `session.duckdb` exists
   fileBacked : Bool := false   -- the database path points into the session directory
   hazard : Bool := false       -- the session directory was removed while a connection was still open
@@ -69,7 +77,7 @@ inductive Leak | dir | conn | file
 
 def leftovers (r : Res) : List Leak :=
   (if r.dir then [Leak.dir] else []) ++
-  (if r.conn = .open ∨ r.conn = .lost ∨ r.extra ≠ 0 then [Leak.conn] else []) ++
+  (if r.obj = .open ∨ r.extra ≠ 0 then [Leak.conn] else []) ++
   (if r.file then [Leak.file] else [])
 
 /-- An environment variable as `int(os.getenv(...))` sees it. -/
@@ -125,7 +133,7 @@ structure Ctx where
   script : List BodyOp
   fault : Option Nat         -- index of the fault point at which the sink raises
 
-def connUsable (r : Res) : Bool := r.conn = .open
+def connUsable (r : Res) : Bool := r.obj = .open
 
 def applyOp (c : Ctx) (o : Op) (s : St) : St × Bool :=
   let r := s.res
@@ -133,12 +141,12 @@ def applyOp (c : Ctx) (o : Op) (s : St) : St × Bool :=
   | .mkdirTemp => (s, false)
   | .mkdirSession => ({ s with res := { r with dir := true } }, false)
   | .chooseDb => ({ s with res := { r with fileBacked := !c.env.inMemory } }, false)
-  | .bindNone =>
-      ({ s with res := { r with conn := (if r.conn = .open then .lost else if r.conn = .lost then .lost else .none) } }, false)
+  | .bindNone => ({ s with res := { r with conn := .none } }, false)
   | .connect =>
       if r.fileBacked && !r.dir then (s, true)
-      else ({ s with res := { r with conn := .open, extra := (if r.conn = .open then r.extra + 1 else r.extra),
+      else ({ s with res := { r with obj := .open, extra := (if r.obj = .open then r.extra + 1 else r.extra),
                                        file := r.file || r.fileBacked } }, false)
+  | .bindConn => ({ s with res := { r with conn := .bound } }, false)
   | .configure => (s, !connUsable r)
   | .registerUdf => (s, !connUsable r)
   | .setTemp => (s, !connUsable r)
@@ -146,13 +154,18 @@ def applyOp (c : Ctx) (o : Op) (s : St) : St × Bool :=
       let (d, raised) := c.sd s.dec c.env
       ({ s with dec := d, seen := if raised then s.seen else s.seen ++ [d.w, d.s] }, raised)
   | .close =>
-      match r.conn with
-      | .open => ({ s with res := { r with conn := .closed } }, false)
+      match r.conn, r.obj with
+      | .bound, .open => ({ s with res := { r with obj := .closed } }, false)
+      | .bound, .closed => (s, false)
+      | _, _ => (s, true)                                  -- NameError / AttributeError on None
+  | .closeInner =>
+      match r.obj with
+      | .open => ({ s with res := { r with obj := .closed } }, false)
       | .closed => (s, false)
-      | _ => (s, true)                                     -- NameError / AttributeError on None
+      | .absent => (s, true)
   | .rmtree =>
       ({ s with res := { r with dir := false, file := false,
-                                hazard := r.hazard || (r.conn = .open) || (r.extra != 0) } }, false)
+                                hazard := r.hazard || (r.obj = .open) || (r.extra != 0) } }, false)
   | .connectExtra => ({ s with res := { r with extra := r.extra + 1 } }, false)
   | .closeExtra => ({ s with res := { r with extra := r.extra - 1 } }, false)
 
@@ -295,7 +308,7 @@ def seqs : List Prog → Prog
 
 def snapshotPre : Prog := seqs
   [.op .mkdirTemp, .op .mkdirSession, .ev "session_dir", .op .chooseDb, .ev "connect",
-   .op .connect, .ev "configure", .op .configure, .op .registerUdf, .op .setDecimal,
+   .op .connect, .ev "configure", .op .configure, .op .registerUdf, .op .setDecimal, .op .bindConn,
    .ev "connected", .op .setTemp]
 
 def snapshotMain : Prog :=
